@@ -1,13 +1,16 @@
 package main
 
 import (
+	"context"
 	"fmt"
 	"net"
 	"sort"
 	"strings"
 	"sync"
+	"sync/atomic"
 	"time"
 
+	"go.brendoncarroll.net/p2p"
 	"go.brendoncarroll.net/p2p/s/sshswarm"
 	"golang.org/x/crypto/ssh"
 
@@ -114,4 +117,179 @@ func c12SSHCloseDuringSetup(r *ev.Run, g *rng.R) {
 		}
 	}
 	r.NonTrivial("ssh/closed-during-connection-setup")
+}
+
+// c12SSHCloseDuringDial: an sshswarm node is closed while its first Tell to a peer is still inside the outbound connection
+// setup. The peer is a raw ssh server of the harness that accepts the TCP connection and holds the ssh handshake until the
+// harness lets it go (before, around or after Close). The peer keeps its end open while the verdict is taken, so whatever the
+// closed node still runs for that connection is its own: no goroutine with a frame of the library may stay parked.
+func c12SSHCloseDuringDial(r *ev.Run, g *rng.R) {
+	caseID := "ssh-close-during-outbound-setup"
+	if !r.Want(caseID) {
+		return
+	}
+	strict := func() map[int]gor.G {
+		out := map[int]gor.G{}
+		for _, gg := range gor.Snapshot() {
+			if len(gg.LibFrames()) > 0 && !gg.Has("main.") && !gg.Has("verifharness/") {
+				out[gg.ID] = gg
+			}
+		}
+		return out
+	}
+	rounds := pick(r, 24, 120)
+	conclusive := 0
+	for round := 0; round < rounds; round++ {
+		r.Eval(1)
+		base := strict()
+		ln, err := net.Listen("tcp", "127.0.0.1:0")
+		if err != nil {
+			r.Inconclusive("c12 ssh dial: cannot listen: " + err.Error())
+			return
+		}
+		host := sshSigner(190)
+		node, err := sshswarm.New("127.0.0.1:0", sshSigner(191+round%4))
+		if err != nil {
+			ln.Close()
+			r.Inconclusive("c12 ssh dial: cannot start a node: " + err.Error())
+			return
+		}
+		accepted := make(chan struct{})
+		release := make(chan struct{})
+		finish := make(chan struct{})
+		var handshook atomic.Bool
+		var srvWG sync.WaitGroup
+		srvWG.Add(1)
+		go func() {
+			defer srvWG.Done()
+			conn, err := ln.Accept()
+			if err != nil {
+				close(accepted)
+				return
+			}
+			defer conn.Close()
+			close(accepted)
+			<-release
+			cfg := &ssh.ServerConfig{PublicKeyCallback: func(ssh.ConnMetadata, ssh.PublicKey) (*ssh.Permissions, error) { return &ssh.Permissions{}, nil }}
+			cfg.AddHostKey(host)
+			conn.SetDeadline(time.Now().Add(20 * time.Second))
+			sc, chans, reqs, err := ssh.NewServerConn(conn, cfg)
+			if err != nil {
+				return
+			}
+			conn.SetDeadline(time.Time{})
+			handshook.Store(true)
+			go ssh.DiscardRequests(reqs)
+			go func() {
+				for nc := range chans {
+					nc.Reject(ssh.Prohibited, "no")
+				}
+			}()
+			<-finish
+			sc.Close()
+		}()
+		lport := ln.Addr().(*net.TCPAddr).Port
+		dst := sshswarm.Addr{Fingerprint: ssh.FingerprintSHA256(host.PublicKey()), IP: node.LocalAddrs()[0].IP, Port: uint16(lport)}
+		told := make(chan error, 1)
+		go func() {
+			ctx, cf := context.WithTimeout(context.Background(), 15*time.Second)
+			defer cf()
+			told <- node.Tell(ctx, dst, p2p.IOVec{[]byte("C12 outbound setup")})
+		}()
+		select {
+		case <-accepted:
+		case <-time.After(5 * time.Second):
+			r.Inconclusive("c12 ssh dial: the node never connected")
+			close(release)
+			close(finish)
+			node.Close()
+			ln.Close()
+			srvWG.Wait()
+			continue
+		}
+		mode := round % 3 // 0: Close returns, then the handshake goes on; 1: both at once; 2: the handshake is let go first, Close follows within microseconds
+		closed := make(chan struct{})
+		switch mode {
+		case 0:
+			node.Close()
+			close(closed)
+			close(release)
+		case 1:
+			go func() { node.Close(); close(closed) }()
+			close(release)
+		case 2:
+			close(release)
+			time.Sleep(time.Duration(g.Intn(3000)) * time.Microsecond)
+			node.Close()
+			close(closed)
+		}
+		<-closed
+		var tellErr error
+		tellReturned := false
+		select {
+		case tellErr = <-told:
+			tellReturned = true
+		case <-time.After(12 * time.Second):
+		}
+		_ = tellErr
+		leftover := func() map[int]gor.G {
+			out := map[int]gor.G{}
+			for id, gg := range strict() {
+				if _, was := base[id]; !was {
+					out[id] = gg
+				}
+			}
+			return out
+		}
+		var left map[int]gor.G
+		for i := 0; i < 60; i++ {
+			if left = leftover(); len(left) == 0 {
+				break
+			}
+			time.Sleep(50 * time.Millisecond)
+		}
+		violated := false
+		if len(left) > 0 && tellReturned {
+			time.Sleep(time.Second)
+			still := leftover()
+			var texts, sl []string
+			sites := map[string]bool{}
+			for id, g1 := range left {
+				if g2, ok := still[id]; ok && gor.IsParked(g1.State) && gor.IsParked(g2.State) {
+					sites[g2.LibFrames()[0]] = true
+					if len(texts) < 4 {
+						texts = append(texts, g2.Text)
+					}
+				}
+			}
+			if len(texts) > 0 {
+				for s := range sites {
+					sl = append(sl, s)
+				}
+				sort.Strings(sl)
+				r.Violate("C12/goroutine-leak/ssh-outbound-setup", caseID, fmt.Sprintf("%d goroutines of a closed sshswarm node are still parked in the library while the peer keeps its end open (the node was closed while its first Tell was inside the outbound connection setup; mode %d)", len(texts), mode),
+					map[string]any{"stack": "ssh", "sites": sl, "round": round, "mode": mode, "peer_completed_handshake": handshook.Load(), "stacks": strings.Join(texts, "\n\n")})
+				violated = true
+			}
+		}
+		if tellReturned {
+			conclusive++
+			if handshook.Load() {
+				r.Count("c12_ssh_dial_handshake_completed_after_close_began", 1)
+			}
+		} else {
+			r.Count("c12_ssh_dial_tell_not_returned", 1)
+		}
+		close(finish)
+		ln.Close()
+		srvWG.Wait()
+		if violated {
+			return
+		}
+	}
+	if conclusive > 0 {
+		r.NonTrivial("ssh/closed-during-outbound-setup")
+	} else {
+		r.Inconclusive("c12 ssh dial: no round in which the Tell returned")
+	}
 }
